@@ -9,8 +9,9 @@ sys.path.insert(0, os.path.dirname(os.path.abspath(__file__)))
 import apply_fix
 
 pid = sys.argv[1]
-wt = "/tmp/wth_%s/known" % pid
-dst = "/verif/hunt/%s/known" % pid
+rnd = sys.argv[2] if len(sys.argv) > 2 else ""          # "" = first round, "2" = second round
+wt = "/tmp/wth%s_%s/known" % (rnd, pid)
+dst = "/verif/hunt/%s/known%s" % (pid, rnd)
 os.makedirs(dst, exist_ok=True)
 db = json.load(open(apply_fix.FINDINGS))
 have = {f.get("origin") for f in db["findings"]}
@@ -18,7 +19,7 @@ for path in sorted(glob.glob(wt + "/[0-9]*.json")):
     nn = os.path.basename(path)[:-5]
     rec = json.load(open(path))
     json.dump(rec, open(os.path.join(dst, nn + ".json"), "w"), indent=1)
-    origin = "hunt/%s/known/%s" % (pid, nn)
+    origin = "hunt/%s/known%s/%s" % (pid, rnd, nn)
     if origin in have:
         continue
     meta = {}
